@@ -214,6 +214,27 @@ def numeric_range(rep, prog, g):
                 except (Inconclusive, Panic):
                     continue
                 _collect(cell, where, "range::hyphen::parser", sites)
+    # literal components the desugaring stores (e.g. MAX_SAFE_INTEGER for `<=1`) must be readable too
+    try:
+        from .. import errors as E
+        mx = prog.consts.get("MAX_SAFE_INTEGER")
+        accepted_max = None
+        for r in E.number_table(prog):
+            if r["status"] == "ok" and r["parse"] == "ok":
+                d = E.decode_number(prog, r["interp"], r["result"])
+                if d[0] == "ok" and (accepted_max is None or r["value"] > accepted_max):
+                    accepted_max = r["value"]
+        lits = sorted(set(x for (k, c) in [(k, c) for k, c in literal_components(g, prog, ex)] for x in [c]))
+        rep.rule("NUMERIC-LITERALS", 1, "every literal component the desugaring stores is accepted by number()")
+        too_big = [x for x in lits if accepted_max is None or x > accepted_max]
+        if too_big:
+            rep.fail("NUMERIC-LITERALS", "desugar literals|NUMERIC-LITERALS|literal %s above reader max" % ("MAX_SAFE_INTEGER" if too_big[0] == mx else too_big[0]),
+                     "the desugaring stores the literal %d (printed by Display) but number() accepts at most %s" % (too_big[0], accepted_max),
+                     example="<=2 prints <=2.%d.%d, which does not re-parse" % (too_big[0], too_big[0]))
+        else:
+            rep.ok("NUMERIC-LITERALS")
+    except Inconclusive as e:
+        rep.inconc("NUMERIC-LITERALS: " + e.reason, e.where)
     if not sites:
         rep.ok(rule)
     else:
@@ -223,6 +244,30 @@ def numeric_range(rep, prog, g):
                  "prints as MAX_SAFE_INTEGER+1, which number() rejects when the printed range is parsed again" % (len(sites), ", ".join(fns)),
                  where=sorted(sites.values())[0], example=">1.900719925474099 prints >=1.900719925474100.0, which does not re-parse")
     rep.analysed_item("desugaring table scanned for stored arithmetic terms: %d cells store component+1" % len(sites))
+
+
+def literal_components(g, prog, ex):
+    """(closure, literal) for every integer literal stored as a version component by a desugaring cell"""
+    out = set()
+    for fn, envs in (("range::primitive", [{"op": o} for _, o in OPS]), ("range::partial", [{}]),
+                     ("range::tilde", [{"gt": False}, {"gt": True}]), ("range::caret", [{}])):
+        clo = D.top_map_closure(g, fn)
+        if clo is None:
+            continue
+        for env in envs:
+            for shape in D.shapes():
+                try:
+                    cell, where, it = ex.run_closure(clo, dict(env, shape=shape))
+                except (Inconclusive, Panic):
+                    continue
+                if cell in ("DROPPED", "NULL"):
+                    continue
+                for c in cell[:2]:
+                    if c[0] in ("before", "after"):
+                        for x in c[1][:3]:
+                            if x[0] == "n":
+                                out.add((clo.key, x[1]))
+    return out
 
 
 def _collect(cell, where, key, sites):
